@@ -1180,4 +1180,549 @@ theorem trimMask_length (m : List Bool) : (trimMask m).length ≤ m.length := by
   obtain ⟨k, hk⟩ := trimMask_spec m
   have := congrArg List.length hk
   simp at this; omega
+
+/-- the cached count, when present, is the popcount of the mask -/
+def CacheOk : CRS → Prop
+  | .sels _ => True
+  | .bits ms => ∀ c, ms.cache = some c → c = countTrue ms.m
+
+theorem countTrue_take_drop (m : List Bool) (k : Nat) :
+    countTrue (m.take k) + countTrue (m.drop k) = countTrue m := by
+  rw [countTrue_eq, countTrue_eq, countTrue_eq, ← countTrue_append, List.take_append_drop]
+
+theorem cacheOk_ofRS (r : RS) : CacheOk (CRS.ofRS r) := by
+  cases r <;> simp [CRS.ofRS, CacheOk]
+
+theorem cacheOk_rowCount (s : CRS) (h : CacheOk s) :
+    CacheOk s.rowCount.2 ∧ s.rowCount.1 = s.toRS.rowCount ∧ s.rowCount.2.toRS = s.toRS := by
+  cases s with
+  | sels s => simp [CRS.rowCount, CacheOk, CRS.toRS, RS.rowCount]
+  | bits ms =>
+    obtain ⟨m, cache⟩ := ms
+    cases cache with
+    | none => simp [CRS.rowCount, MaskSel.count, CacheOk, CRS.toRS, RS.rowCount]
+    | some c =>
+      have := h c rfl
+      simp only [] at this
+      subst this
+      simp [CRS.rowCount, MaskSel.count, CRS.toRS, RS.rowCount]
+      exact h
+
+theorem cacheOk_skipped (s : CRS) (h : CacheOk s) :
+    CacheOk s.skippedRowCount.2 ∧ s.skippedRowCount.1 = s.toRS.skippedRowCount := by
+  cases s with
+  | sels s => simp [CRS.skippedRowCount, CacheOk, CRS.toRS, RS.skippedRowCount]
+  | bits ms =>
+    obtain ⟨m, cache⟩ := ms
+    cases cache with
+    | none => simp [CRS.skippedRowCount, MaskSel.count, CacheOk, CRS.toRS, RS.skippedRowCount]
+    | some c =>
+      have := h c rfl
+      simp only [] at this
+      subst this
+      simp [CRS.skippedRowCount, MaskSel.count, CRS.toRS, RS.skippedRowCount]
+      exact h
+
+theorem countTrue_pos_iff_any (m : List Bool) : (countTrue m > 0) ↔ m.any id = true := by
+  induction m with
+  | nil => simp [countTrue]
+  | cons a m ih => cases a <;> simp [countTrue, ih]
+
+theorem cacheOk_selectsAny (s : CRS) (h : CacheOk s) : s.selectsAny = s.toRS.selectsAny := by
+  cases s with
+  | sels s => simp [CRS.selectsAny, CRS.toRS, RS.selectsAny]
+  | bits ms =>
+    obtain ⟨m, cache⟩ := ms
+    cases cache with
+    | none =>
+      simp only [CRS.selectsAny, CRS.toRS, RS.selectsAny]
+      by_cases hc : countTrue m > 0
+      · simp [hc, (countTrue_pos_iff_any m).mp hc]
+      · have : ¬ (m.any id = true) := fun h2 => hc ((countTrue_pos_iff_any m).mpr h2)
+        simp [hc]; simpa using this
+    | some c =>
+      have := h c rfl
+      simp only [] at this
+      simp [CRS.selectsAny, CRS.toRS, RS.selectsAny, this]
+
+theorem cacheOk_splitOff (s : CRS) (k : Nat) (h : CacheOk s) :
+    CacheOk (s.splitOff k).1 ∧ CacheOk (s.splitOff k).2 ∧
+    (s.splitOff k).1.toRS = (s.toRS.splitOff k).1 ∧ (s.splitOff k).2.toRS = (s.toRS.splitOff k).2 := by
+  cases s with
+  | sels s => simp [CRS.splitOff, CacheOk, CRS.toRS, RS.splitOff]
+  | bits ms =>
+    obtain ⟨m, cache⟩ := ms
+    cases cache with
+    | none => simp [CRS.splitOff, CacheOk, CRS.toRS, RS.splitOff]
+    | some c =>
+      have hc := h c rfl
+      simp only [] at hc
+      subst hc
+      have hsp := splitOffMask_spec m k
+      have htd := countTrue_take_drop m k
+      simp only [CRS.splitOff, CacheOk, CRS.toRS, RS.splitOff, and_true, Option.some.injEq]
+      refine ⟨?_, ?_⟩
+      · intro c hc; subst hc
+        split
+        · rename_i he
+          have : (splitOffMask m k).2 = [] := List.isEmpty_iff.mp he
+          rw [hsp.2] at this
+          rw [hsp.1]
+          rw [this] at htd; simp [countTrue] at htd; omega
+        · rfl
+      · intro c hc; subst hc
+        rw [hsp.1, hsp.2]
+        split
+        · rename_i he
+          have : m.drop k = [] := List.isEmpty_iff.mp he
+          rw [this]; simp [countTrue]
+        · omega
+
+theorem countTrue_offsetMask (m : List Bool) (k : Nat) :
+    countTrue (offsetMask m k) = countTrue m - k := by
+  have h1 := offsetMask_positions m k
+  have h2 := congrArg List.length h1
+  rw [trueIdx_length, List.length_drop, trueIdx_length] at h2
+  rw [countTrue_eq, countTrue_eq]; exact h2
+
+theorem countTrue_limitMask (m : List Bool) (k : Nat) :
+    countTrue (limitMask m k) = min (countTrue m) k := by
+  have h2 := congrArg List.length (trueIdx_keepFirst 0 k m)
+  rw [trueIdx_length, List.length_take, trueIdx_length] at h2
+  rw [limitMask_spec, countTrue_eq, countTrue_eq, h2]; omega
+
+theorem countTrue_trimMask (m : List Bool) : countTrue (trimMask m) = countTrue m := by
+  have h2 := congrArg List.length (trimMask_positions m)
+  rw [trueIdx_length, trueIdx_length] at h2
+  rw [countTrue_eq, countTrue_eq]; exact h2
+
+theorem cacheOk_offset (s : CRS) (k : Nat) (h : CacheOk s) :
+    CacheOk (s.offset k) ∧ (s.offset k).toRS = s.toRS.offset k := by
+  cases k with
+  | zero => cases s <;> simp [CRS.offset, RS.offset, CRS.toRS, h]
+  | succ k =>
+    cases s with
+    | sels s => simp [CRS.offset, CacheOk, CRS.toRS, RS.offset]
+    | bits ms =>
+      obtain ⟨m, cache⟩ := ms
+      simp only [CRS.offset, CacheOk, CRS.toRS, RS.offset, and_true, Option.some.injEq]
+      intro c hc; subst hc
+      rw [countTrue_offsetMask]
+      cases cache with
+      | none => simp [MaskSel.count]
+      | some c => have := h c rfl; simp only [] at this; simp [MaskSel.count, this]
+
+theorem cacheOk_limit (s : CRS) (k : Nat) (h : CacheOk s) :
+    CacheOk (s.limit k) ∧ (s.limit k).toRS = s.toRS.limit k := by
+  cases s with
+  | sels s => simp [CRS.limit, CacheOk, CRS.toRS, RS.limit]
+  | bits ms =>
+    obtain ⟨m, cache⟩ := ms
+    simp only [CRS.limit, CacheOk, CRS.toRS, RS.limit, and_true]
+    intro c hc
+    cases cache with
+    | none => simp at hc
+    | some c0 =>
+      have := h c0 rfl; simp only [] at this
+      simp at hc; subst hc; subst this
+      rw [countTrue_limitMask]
+
+theorem cacheOk_trim (s : CRS) (h : CacheOk s) :
+    CacheOk s.trim ∧ s.trim.toRS = s.toRS.trim := by
+  cases s with
+  | sels s => simp [CRS.trim, CacheOk, CRS.toRS, RS.trim]
+  | bits ms =>
+    obtain ⟨m, cache⟩ := ms
+    simp only [CRS.trim, CacheOk, CRS.toRS, RS.trim, and_true]
+    intro c hc
+    have := h c hc; simp only [] at this
+    rw [countTrue_trimMask]; exact this
+
+/-- one step of an operation history on a `RowSelection` -/
+inductive Op where
+  | rowCount | skipped | clone | trim
+  | splitHead (n : Nat) | splitTail (n : Nat) | offset (k : Nat) | limit (k : Nat)
+  | andThen (o : RS) | inter (o : RS) | union (o : RS)
+
+def Op.apply (s : CRS) : Op → Option CRS
+  | .rowCount => some s.rowCount.2
+  | .skipped => some s.skippedRowCount.2
+  | .clone => some s
+  | .trim => some s.trim
+  | .splitHead n => some (s.splitOff n).1
+  | .splitTail n => some (s.splitOff n).2
+  | .offset k => some (s.offset k)
+  | .limit k => some (s.limit k)
+  | .andThen o => s.andThen (CRS.ofRS o)
+  | .inter o => some (s.intersection (CRS.ofRS o))
+  | .union o => some (s.union (CRS.ofRS o))
+
+def runOps : CRS → List Op → Option CRS
+  | s, [] => some s
+  | s, op :: rest => match op.apply s with
+    | some s' => runOps s' rest
+    | none => none
+
+theorem op_cacheOk (s s' : CRS) (op : Op) (h : CacheOk s) (hs : op.apply s = some s') : CacheOk s' := by
+  cases op <;> simp only [Op.apply, Option.some.injEq] at hs
+  · subst hs; exact (cacheOk_rowCount s h).1
+  · subst hs; exact (cacheOk_skipped s h).1
+  · subst hs; exact h
+  · subst hs; exact (cacheOk_trim s h).1
+  · subst hs; exact (cacheOk_splitOff s _ h).1
+  · subst hs; exact (cacheOk_splitOff s _ h).2.1
+  · subst hs; exact (cacheOk_offset s _ h).1
+  · subst hs; exact (cacheOk_limit s _ h).1
+  · unfold CRS.andThen at hs
+    simp only [Option.map_eq_some_iff] at hs
+    obtain ⟨r, _, rfl⟩ := hs; exact cacheOk_ofRS r
+  · subst hs; exact cacheOk_ofRS _
+  · subst hs; exact cacheOk_ofRS _
+
+theorem runOps_cacheOk (s s' : CRS) (ops : List Op) (h : CacheOk s) (hs : runOps s ops = some s') :
+    CacheOk s' := by
+  induction ops generalizing s with
+  | nil => simp [runOps] at hs; subst hs; exact h
+  | cons op rest ih =>
+    unfold runOps at hs
+    cases ha : op.apply s with
+    | none => simp [ha] at hs
+    | some s1 => simp only [ha] at hs; exact ih s1 (op_cacheOk s s1 op h ha) hs
+
+theorem rep_succ_true_append (n : Nat) (m : List Bool) :
+    List.replicate n true ++ true :: m = List.replicate (n + 1) true ++ m := by
+  rw [List.replicate_succ']; simp
+
+theorem rep_succ_false_append (n : Nat) (m : List Bool) :
+    List.replicate n false ++ false :: m = List.replicate (n + 1) false ++ m := by
+  rw [List.replicate_succ']; simp
+
+/-- `mask_to_selectors` over `set_slices`, generalised over the scan state -/
+theorem m2s_slices (m : List Bool) (i lastEnd : Nat) (cur : Option Nat) (total : Nat)
+    (ht : total = i + m.length) :
+    (cur = none → lastEnd ≤ i →
+      mask (m2sGo total (slicesGo m i none) lastEnd) = List.replicate (i - lastEnd) false ++ m) ∧
+    (∀ st, cur = some st → lastEnd ≤ st → st ≤ i →
+      mask (m2sGo total (slicesGo m i (some st)) lastEnd) =
+        List.replicate (st - lastEnd) false ++ (List.replicate (i - st) true ++ m)) := by
+  induction m generalizing i lastEnd cur with
+  | nil =>
+    simp at ht; subst ht
+    constructor
+    · intro _ hle
+      simp only [slicesGo, m2sGo]
+      split
+      · simp
+      · rename_i h; simp at h; subst h; simp
+    · intro st _ h1 h2
+      simp only [slicesGo, m2sGo, ne_eq, not_true_eq_false, if_false]
+      split
+      · simp
+      · have : st = lastEnd := by omega
+        subst this; simp
+  | cons x m ih =>
+    have ht' : total = (i + 1) + m.length := by simp at ht; omega
+    cases x
+    · constructor
+      · intro _ hle
+        simp only [slicesGo]
+        rw [(ih (i + 1) lastEnd none ht').1 rfl (by omega)]
+        rw [show i + 1 - lastEnd = (i - lastEnd) + 1 by omega, rep_succ_false_append]
+      · intro st _ h1 h2
+        simp only [slicesGo, m2sGo]
+        rw [mask_append, mask_cons, (ih (i + 1) i none ht').1 rfl (by omega)]
+        simp only [Bool.not_false, show i + 1 - i = 1 by omega]
+        split
+        · simp
+        · have : st = lastEnd := by omega
+          subst this; simp
+    · constructor
+      · intro _ hle
+        simp only [slicesGo]
+        rw [(ih (i + 1) lastEnd (some i) ht').2 i rfl hle (by omega)]
+        simp [show i + 1 - i = 1 by omega]
+      · intro st _ h1 h2
+        simp only [slicesGo]
+        rw [(ih (i + 1) lastEnd (some st) ht').2 st rfl h1 (by omega)]
+        rw [show i + 1 - st = (i - st) + 1 by omega, rep_succ_true_append]
+
+/-- **`mask_to_selectors` / `MaskRunIter`** denote the mask they were built from -/
+theorem mask_maskToSelectors (m : List Bool) : mask (maskToSelectors m) = m := by
+  unfold maskToSelectors slices
+  split
+  · rename_i h; have := List.length_eq_zero_iff.mp h; subst this; rfl
+  · have := (m2s_slices m 0 0 none m.length (by simp)).1 rfl (by omega)
+    simpa using this
+
+theorem mask_dropWhile_zero (o : List Sel) : mask (o.dropWhile (fun s => s.1 = 0)) = mask o := by
+  induction o with
+  | nil => rfl
+  | cons a r ih =>
+    obtain ⟨n, k⟩ := a
+    by_cases h : n = 0
+    · subst h; simp [List.dropWhile, ih]
+    · simp [List.dropWhile, h]
+
+theorem dropWhile_head_ne (o : List Sel) (s : Sel) (r : List Sel)
+    (h : o.dropWhile (fun s => s.1 = 0) = s :: r) : s.1 ≠ 0 := by
+  induction o with
+  | nil => simp at h
+  | cons a t ih =>
+    by_cases h0 : a.1 = 0
+    · simp [List.dropWhile, h0] at h; exact ih h
+    · simp [List.dropWhile, h0] at h; rw [← h.1]; exact h0
+
+theorem atmsGo_spec (m : List Bool) (other : List Sel) (bits : List Bool) (rest : List Sel)
+    (h : atmsGo m other = some (bits, rest)) :
+    bits = compose m (mask other) ∧ mask rest = (mask other).drop (Spec.countTrue m) ∧
+      Spec.countTrue m ≤ (mask other).length := by
+  induction m generalizing other bits rest with
+  | nil => simp [atmsGo] at h; obtain ⟨rfl, rfl⟩ := h; simp [Spec.countTrue]
+  | cons x m ih =>
+    cases x
+    · simp only [atmsGo, Option.map_eq_some_iff] at h
+      obtain ⟨⟨b1, r1⟩, h1, h2⟩ := h
+      simp at h2; obtain ⟨rfl, rfl⟩ := h2
+      obtain ⟨e1, e2, e3⟩ := ih other b1 r1 h1
+      exact ⟨by simp [compose, e1], by simpa [Spec.countTrue] using e2, by simpa [Spec.countTrue] using e3⟩
+    · unfold atmsGo at h
+      split at h
+      · simp at h
+      · rename_i s r hd
+        simp only [Option.map_eq_some_iff] at h
+        obtain ⟨⟨b1, r1⟩, h1, h2⟩ := h
+        simp at h2; obtain ⟨rfl, rfl⟩ := h2
+        obtain ⟨n, k⟩ := s
+        have hn : n ≠ 0 := dropWhile_head_ne other _ _ hd
+        obtain ⟨e1, e2, e3⟩ := ih _ b1 r1 h1
+        have hm : mask other = (!k) :: mask ((n - 1, k) :: r) := by
+          rw [← mask_dropWhile_zero, hd, mask_cons, mask_cons]
+          cases n with
+          | zero => omega
+          | succ n => simp [List.replicate_succ]
+        rw [hm]
+        refine ⟨by simp [compose, e1], by simpa [Spec.countTrue] using e2, ?_⟩
+        change Spec.countTrue m ≤ (mask ((n - 1, k) :: r)).length at e3
+        simp only [Spec.countTrue, List.length_cons]
+        omega
+
+theorem any_ne_zero_false (rest : List Sel) (h : rest.any (fun s => decide (s.1 ≠ 0)) = false) :
+    mask rest = [] := by
+  induction rest with
+  | nil => rfl
+  | cons a r ih =>
+    obtain ⟨n, k⟩ := a
+    simp at h
+    obtain ⟨h1, h2⟩ := h
+    subst h1
+    simp; apply ih; simpa using h2
+
+/-- **`and_then_mask_from_selectors`**: when it does not panic, `other` has exactly one row per
+selected row of the mask and the result is the composition. -/
+theorem andThenMaskFromSelectors_spec (m : List Bool) (other : List Sel) (out : List Bool)
+    (h : andThenMaskFromSelectors m other = some out) :
+    out = compose m (mask other) ∧ (mask other).length = Spec.countTrue m := by
+  unfold andThenMaskFromSelectors at h
+  split at h
+  · simp at h
+  · rename_i bits rest hg
+    split at h
+    · simp at h
+    · rename_i hany
+      simp at h; subst h
+      obtain ⟨e1, e2, e3⟩ := atmsGo_spec m other _ rest hg
+      refine ⟨e1, ?_⟩
+      have hr : mask rest = [] := any_ne_zero_false rest (by
+        cases hb : rest.any (fun s => decide (s.1 ≠ 0)) with
+        | false => rfl
+        | true => exact absurd hb hany)
+      rw [hr] at e2
+      have := congrArg List.length e2
+      simp at this; omega
+
+theorem bumpLast_snoc (len : Nat) (a : List Sel) (s : Sel) :
+    bumpLast len (a ++ [s]) = a ++ [(s.1 + len, s.2)] := by
+  induction a with
+  | nil => simp [bumpLast]
+  | cons x a ih =>
+    cases h : a ++ [s] with
+    | nil => simp at h
+    | cons y t =>
+      simp only [List.cons_append, h]
+      unfold bumpLast
+      rw [← h, ih]
+
+/-- what `selectors` looks like inside `from_consecutive_ranges`: empty or ending in a select -/
+def AccOk (acc : List Sel) : Prop := acc = [] ∨ ∃ a n, acc = a ++ [(n, false)]
+
+theorem fcrGo_spec (total : Nat) (ranges : List (Nat × Nat)) (acc : List Sel) (lastEnd : Nat)
+    (out : List Sel) (hacc : AccOk acc) (h : fcrGo total ranges acc lastEnd = some out) :
+    mask out = mask acc ++ rangesBits total ranges lastEnd := by
+  induction ranges generalizing acc lastEnd with
+  | nil =>
+    simp only [fcrGo, Option.some.injEq] at h
+    subst h
+    simp only [rangesBits]
+    split
+    · simp [mask_append]
+    · rename_i h0; simp at h0; subst h0; simp
+  | cons r rs ih =>
+    obtain ⟨st, en⟩ := r
+    simp only [fcrGo] at h
+    simp only [rangesBits]
+    split at h
+    · rename_i h0; rw [if_pos h0]; exact ih acc lastEnd hacc h
+    · rename_i h0
+      rw [if_neg h0]
+      split at h
+      · rename_i heq; subst heq
+        rcases hacc with rfl | ⟨a, n, rfl⟩
+        · simp only [List.isEmpty_nil, if_true] at h
+          rw [ih _ _ (Or.inr ⟨[], _, rfl⟩) h]; simp
+        · have hne : (a ++ [(n, false)]).isEmpty = false := by simp
+          simp only [hne, Bool.false_eq_true, if_false, bumpLast_snoc] at h
+          rw [ih _ _ (Or.inr ⟨a, _, rfl⟩) h]
+          simp only [mask_append, mask_cons, mask_nil, Bool.not_false, List.append_nil, List.append_assoc]
+          simp only [Nat.sub_self, List.replicate_zero, List.append_nil, List.append_assoc, List.nil_append]
+          rw [rep_add n (en - st) true, List.append_assoc]
+      · split at h
+        · rename_i hgt
+          rw [ih _ _ (Or.inr ⟨acc ++ [skipS (st - lastEnd)], en - st, by simp⟩) h]
+          simp [mask_append]
+        · simp at h
+
+/-- **`RowSelection::from_consecutive_ranges`**: whenever it does not panic the result denotes
+exactly the rows inside the given ranges, over `total_rows` rows. -/
+theorem mask_fromConsecutiveRanges (ranges : List (Nat × Nat)) (total : Nat) (out : List Sel)
+    (h : fromConsecutiveRanges ranges total = some out) :
+    mask out = rangesBits total ranges 0 := by
+  have := fcrGo_spec total ranges [] 0 out (Or.inl rfl) h
+  simpa using this
+
+/-- `rangesBits` over the slices of one filter followed by `rest`, generalised over the
+`SlicesIterator` scan state; `T` is what `rest` denotes from row `i + f.length` on -/
+theorem rangesBits_slices (total : Nat) (rest : List (Nat × Nat)) (T : List Bool)
+    (f : List Bool) (i : Nat)
+    (hrest : ∀ le, le ≤ i + f.length →
+      rangesBits total rest le = List.replicate (i + f.length - le) false ++ T) :
+    (∀ le, le ≤ i →
+      rangesBits total (slicesGo f i none ++ rest) le = List.replicate (i - le) false ++ (f ++ T)) ∧
+    (∀ le st, le ≤ st → st ≤ i →
+      rangesBits total (slicesGo f i (some st) ++ rest) le =
+        List.replicate (st - le) false ++ (List.replicate (i - st) true ++ (f ++ T))) := by
+  induction f generalizing i with
+  | nil =>
+    simp only [List.length_nil, Nat.add_zero] at hrest
+    constructor
+    · intro le hle
+      simp [slicesGo, hrest le hle]
+    · intro le st h1 h2
+      simp only [slicesGo, List.cons_append, List.nil_append, rangesBits]
+      split
+      · rename_i h0
+        have : st = i := by omega
+        subst this
+        simp [hrest le h1]
+      · rw [hrest i (by omega)]; simp
+  | cons x f ih =>
+    have hrest' : ∀ le, le ≤ (i + 1) + f.length →
+        rangesBits total rest le = List.replicate ((i + 1) + f.length - le) false ++ T := by
+      intro le hle
+      have := hrest le (by simp; omega)
+      rw [this]; congr 2; simp; omega
+    obtain ⟨ih1, ih2⟩ := ih (i + 1) hrest'
+    cases x
+    · constructor
+      · intro le hle
+        simp only [slicesGo]
+        rw [ih1 le (by omega), show i + 1 - le = (i - le) + 1 by omega, List.cons_append,
+          rep_succ_false_append]
+      · intro le st h1 h2
+        simp only [slicesGo, List.cons_append, rangesBits]
+        split
+        · rename_i h0
+          have : st = i := by omega
+          subst this
+          rw [ih1 le (by omega)]
+          simp only [Nat.sub_self, List.replicate_zero, List.nil_append]
+          rw [show st + 1 - le = (st - le) + 1 by omega, rep_succ_false_append]
+        · rw [ih1 i (by omega)]
+          simp [show i + 1 - i = 1 by omega]
+    · constructor
+      · intro le hle
+        simp only [slicesGo]
+        rw [ih2 le i hle (by omega)]
+        simp [show i + 1 - i = 1 by omega]
+      · intro le st h1 h2
+        simp only [slicesGo]
+        rw [ih2 le st h1 (by omega), show i + 1 - st = (i - st) + 1 by omega, List.cons_append,
+          rep_succ_true_append]
+
+theorem foldl_len (fs : List (List Bool)) (a : Nat) :
+    fs.foldl (fun a f => a + f.length) a = a + fs.flatten.length := by
+  induction fs generalizing a with
+  | nil => simp
+  | cons f r ih => simp [ih]; omega
+
+/-- the ranges `from_filters` feeds to `from_consecutive_ranges` denote the concatenated filters -/
+theorem rangesBits_filterRanges (fs : List (List Bool)) (off total : Nat)
+    (ht : total = off + fs.flatten.length) (le : Nat) (hle : le ≤ off) :
+    rangesBits total (filterRanges fs off) le = List.replicate (off - le) false ++ fs.flatten := by
+  induction fs generalizing off le with
+  | nil =>
+    simp at ht; subst ht
+    simp [filterRanges, rangesBits]
+  | cons f r ih =>
+    simp only [filterRanges, slices, List.flatten_cons]
+    have ht' : total = (off + f.length) + r.flatten.length := by
+      simp only [List.flatten_cons, List.length_append] at ht; omega
+    have := (rangesBits_slices total (filterRanges r (off + f.length)) r.flatten f off
+      (fun le' hle' => ih (off + f.length) ht' le' hle')).1 le hle
+    rw [this]
+
+/-- **`RowSelection::from_filters`** denotes the concatenation of the filters -/
+theorem mask_fromFilters (fs : List (List Bool)) (out : List Sel) (h : fromFilters fs = some out) :
+    mask out = fs.flatten := by
+  unfold fromFilters at h
+  have := mask_fromConsecutiveRanges _ _ out h
+  rw [this, foldl_len, rangesBits_filterRanges fs 0 _ (by simp) 0 (by omega)]
+  simp
+
+/-- `BooleanArray::take_n_true(n)` keeps the length and exactly the first `n` set positions -/
+theorem takeNTrue_spec (f : List Bool) (n b : Nat) :
+    (takeNTrue f n).length = f.length ∧ trueIdx b (takeNTrue f n) = (trueIdx b f).take n := by
+  induction f generalizing n b with
+  | nil => simp [takeNTrue, trueIdx]
+  | cons x f ih =>
+    cases x
+    · simp [takeNTrue, trueIdx, (ih n (b + 1)).1, (ih n (b + 1)).2]
+    · cases n with
+      | zero => simp [takeNTrue, trueIdx, (ih 0 (b + 1)).1, (ih 0 (b + 1)).2]
+      | succ n => simp [takeNTrue, trueIdx, (ih n (b + 1)).1, (ih n (b + 1)).2]
+
+/-- the filter-collection loop of `with_predicate_options` without a limit: the filters,
+concatenated, are the predicate evaluated on the rows the reader delivered, in order -/
+theorem predLoop_none (pred : Nat → Bool) (batches : List (List Nat)) (matched processed : Nat) :
+    (predLoop pred none batches matched processed).1.flatten = batches.flatten.map pred ∧
+    (predLoop pred none batches matched processed).2 = processed + batches.flatten.length := by
+  induction batches generalizing matched processed with
+  | nil => simp [predLoop]
+  | cons b r ih =>
+    simp only [predLoop, List.flatten_cons, List.map_append, List.length_append]
+    obtain ⟨h1, h2⟩ := ih (matched + countTrue (b.map pred)) (processed + b.length)
+    exact ⟨by rw [h1], by rw [h2]; omega⟩
+
+/-- composing a selection with "the predicate evaluated at its selected rows" keeps exactly
+the selected rows where the predicate holds -/
+theorem trueIdx_compose_pred (a : List Bool) (b : Nat) (pred : Nat → Bool) :
+    trueIdx b (compose a ((trueIdx b a).map pred)) = (trueIdx b a).filter pred := by
+  induction a generalizing b with
+  | nil => simp [trueIdx]
+  | cons x a ih =>
+    cases x
+    · simp only [trueIdx, compose]; exact ih (b + 1)
+    · simp only [trueIdx, List.map_cons, compose, List.filter_cons]
+      cases hp : pred b
+      · simp only [trueIdx, Bool.false_eq_true, if_false]; exact ih (b + 1)
+      · simp only [trueIdx, if_true]; rw [ih (b + 1)]
 end ArrowModel.C06
